@@ -259,7 +259,7 @@ NOTE_REPL = {
 for _k, _v in EXTRA_TEXT.items():
     CLAIMS[_k]["text"] += _v
 EXTRA_TEXT4 = {
-    "C02": " Fourth session: stream S02-multipart (allow_fix with multi-part lines that take part in node defects only once merged: the junction / V-node sets must come from the fixed traces).",
+    "C02": " Fourth session: stream S02-multipart (allow_fix with multi-part lines that take part in node defects only once merged: the junction / V-node sets must come from the fixed traces); item ValidationCaches regenerates the object's node caches from their checked shape and C02_node_sets_from_fixed_traces proves that the first pass computes no node sets and every _validate call of the second pass gets the sets of the fixed frame.",
     "C03": " Fourth session: S03 gives Z values to some or all traces of 16% of the maps (the shared z-coordinate gate in front of snapping and noding); item ZCoordinates regenerates that gate and the removal: C03_generated_z_gate (true iff SOME geometry has Z).",
     "C05": " Fourth session: C05_generated_tables_from_output_branches (in the regenerated branches_and_nodes the node table and the branch labels are computed from exactly the returned branches, after the 1.01 x snap filter; item BranchesAndNodes is tied to C05) and stream S05-extraction (handshake and end-node incidence on the tables branches_and_nodes RETURNS, maps with sliver branches).",
     "C07": " Fourth session: stream S07-network runs the same exact judge on Network(truncate_traces=True) -- z-coordinate removal, defensive copies, crop with the column data, renumbering -- for frames with Z values and every index kind, twice on the same caller's frame. The whole crop_to_target_areas is regenerated (item CropPipeline): C07_generated_crop / C07_generated_crop_expected prove that it returns, up to order, exactly one row per long single-part line piece of what the clip leaves of each input row (pieces inside a GeometryCollection included) with that row's data -- Crop.expected -- so the older C07 theorems speak about regenerated code; stream S07-generated-crop runs the compiled regenerated function against the real one with gpd.clip scripted per row. C07_generated_z_removal: the regenerated remove_z_coordinates_from_geodata (label-aligned column assignment modelled in the prelude) keeps every row, label and datum for every index, duplicates included.",
@@ -267,7 +267,7 @@ EXTRA_TEXT4 = {
     "C10": " Fourth session: S10-stacking also plants traces at 0.95 x the stacking buffer (the outer edge of the window, where the candidate search must still reach).",
     "C11": " Fourth session: C11_intersection_filter_order_free (the regenerated determine_valid_intersection_points_no_vnode returns the same points for every permutation of the candidate rows and every digitising direction; items IntersectionFilter / GeneralNodes tied to C11); S11-validation-orbits has gadgets of one fracture digitised in three / four pieces (V-nodes at both ends of a trace). C11_F12_cache_named_columns_win states the known finding F12 on the regenerated LineData cache.",
     "C12": " Fourth session: S12-relations assigns the traces to the sets INDEPENDENTLY of the code (closed ranges incl. wrap-around; azimuths exactly on range ends) instead of reading the assignment from the Network.",
-    "C13": " Fourth session: S13's pool has a tenth frame (multi-part lines that take part in snap / stacking / crosscut defects of OTHER rows once merged: candidate selection must follow the fixed frame) and, for every frame, the history validate -> validate the output again -> re-run the first object. Item ErrorColumn (the two stale column names dropped at the head of run_validation) is tied to C13 as well.",
+    "C13": " Fourth session: S13's pool has a tenth frame (multi-part lines that take part in snap / stacking / crosscut defects of OTHER rows once merged: candidate selection must follow the fixed frame) and, for every frame, the history validate -> validate the output again -> re-run the first object. Item ErrorColumn (the two stale column names dropped at the head of run_validation) is tied to C13 as well. Item ValidationCaches + C13_node_caches_follow_the_fixed_frame: the object's node caches are empty after the first pass and hold the sets of the fixed frame in the second.",
     "C14": " Fourth session: stream S14-adjacent-areas (the box target area given as 2-4 adjacent area rows sharing edges: all four routes vs the exact arrangement of the map in the union; a trace crossing an inner edge stays one piece).",
     "C15": " Fourth session: stream S15-network (HISTORIES): 2-3 Networks with different azimuth set definitions (and areas) on one caller's frame; trace_azimuth_array, trace_azimuth_set_array, set counts and per-set length arrays vs Spec.azimuth / Spec.detSet on each network's own traces. C15_linedata_sets / C15_linedata_idempotent (regenerated LineData cache) and C15_network_sets_from_a_copy (regenerated Network.__post_init__).",
     "C18": " Fourth session: stream S18-touch (integer-lattice maps, cell width 2, EVERY cell's P21 vs the exact clip of the network's traces to that cell's sample circle; one trace is planted to touch a circle's easternmost vertex in a point and run through the circle).",
